@@ -14,6 +14,40 @@ def same_type(a, b):
     return unify(a, b, m1) and unify(b, a, m2)
 
 
+def canon_params(t):
+    """every type parameter renamed to index 0 / its own name dropped (SerIter<'a,T,I> vs Vec<T>)"""
+    if not isinstance(t, tuple) or not t:
+        return t
+    if t[0] == "param":
+        return ("param", "_", 0)
+    return tuple(canon_params(x) if isinstance(x, tuple) else x for x in t)
+
+
+def canon_atoms(atoms):
+    return [Atom(a.k, canon_params(a.ty), a.n, a.src, a.atom, a.mode, a.sp, canon_atoms(a.body) if a.body else None, a.name, a.content) for a in atoms]
+
+
+def canon_statics(st):
+    return {canon_params(k): v for k, v in st.items()}
+
+
+def implied_statics(im):
+    """Copy kind facts implied by the where-clauses of an impl (T: ZeroCopy => Copy(T)=Zero)."""
+    out = {}
+    for pj in im.preds:
+        if "trait" not in pj:
+            continue
+        tid = im.crate.def_id(pj["trait"])
+        args = im.crate.gargs(pj["a"])
+        if not args:
+            continue
+        if tid.endswith("::ZeroCopy"):
+            out[("copy", args[0])] = "Zero"
+        elif tid.endswith("::DeepCopy"):
+            out[("copy", args[0])] = "Deep"
+    return out
+
+
 def impl_key(im):
     return ty_str(im.self_ty)
 
@@ -53,6 +87,7 @@ def collect(u, w, crate_filter=None):
         if id(d) not in used:
             triples.append(Triple(impl_key(d), None, d))
     for t in triples:
+        t.all_triples = triples
         for side, im, meth in (("ser", t.ser_impl, "_serialize_inner"),
                                ("full", t.des_impl, "_deserialize_full_inner"),
                                ("eps", t.des_impl, "_deserialize_eps_inner")):
@@ -309,11 +344,32 @@ def check_triple(t, exp, rep, modes=("full", "eps"), want=("W1", "W2", "W3", "W4
     ser = t.paths.get("ser")
     if "W5" in want:
         if t.ser_impl is not None and t.des_impl is None:
-            # write-only views must declare a SerType that has a reader
+            # write-only views: what they write must be what the readers of their SerType consume
             st = t.ser_impl.assoc_ty("SerType")
-            rep.oblige(True)
             rep.count("write_only_views")
             t.write_only = True
+            target = None
+            for o in getattr(t, "all_triples", []) or []:
+                if o.ser_impl is not None and o.des_impl is not None and st is not None and same_type(canon_params(o.ser_impl.self_ty), canon_params(st)):
+                    target = o
+            if st is None or target is None:
+                rep.oblige(False)
+                rep.add("W5", key + ":sertype", "write-only type `%s` has SerType `%s`, which has no deserializer" % (key, ty_str(st) if st else None), t.loc)
+            else:
+                for p in t.paths.get("ser", []) or []:
+                    if p.outcome != "ok":
+                        continue
+                    if len(p.atoms) == 1 and p.atoms[0].k == "F" and same_type(canon_params(p.atoms[0].ty), canon_params(st)):
+                        rep.oblige(True)
+                        continue
+                    pst = dict(p.statics)
+                    pst.update(implied_statics(t.ser_impl))
+                    cands = [q for q in target.paths.get("ser", []) or [] if q.outcome == "ok" and wire.statics_compatible(canon_statics(q.statics), canon_statics(pst))]
+                    ok = bool(cands) and all(wire.atoms_equal(canon_atoms(p.atoms), canon_atoms(q.atoms)) for q in cands)
+                    rep.oblige(ok)
+                    if not ok:
+                        rep.add("W5", "%s:%s" % (key, p.cond_show()), "write-only view `%s` writes [%s] but its SerType `%s`, as which it is read back, is written/read as [%s]"
+                                % (key, p.show(), ty_str(st), " | ".join(q.show() for q in cands) or "nothing compatible"), t.loc)
         if t.ser_impl is None and t.des_impl is not None:
             rep.add("W5", key, "`%s` has a DeserializeInner impl but no SerializeInner impl" % key, t.loc)
     # path problems
